@@ -12,6 +12,7 @@ import (
 	"github.com/antonmedv/expr/vm"
 
 	"verif/mc/c16types"
+	"verif/mc/henv"
 	"verif/mc/report"
 )
 
@@ -35,6 +36,13 @@ type seamCfg struct {
 	name string
 	src  string
 	ops  func() []expr.Option
+	env  func() interface{} // when set, the program is also RUN on this environment and the result is part of the key
+}
+
+type seamRunEnv struct {
+	MK map[interface{}]string
+	MS map[string]int
+	I  int
 }
 
 func seamConfigs() []seamCfg {
@@ -42,7 +50,7 @@ func seamConfigs() []seamCfg {
 	mapEnv := map[string]interface{}{"a": 1, "b": "x", "c": []int{1}, "f": func(a, b int) int { return a * b }}
 	map2 := map[string]interface{}{"x": 1, "y": 2}
 	var cfgs []seamCfg
-	add := func(name, src string, ops func() []expr.Option) { cfgs = append(cfgs, seamCfg{name, src, ops}) }
+	add := func(name, src string, ops func() []expr.Option) { cfgs = append(cfgs, seamCfg{name, src, ops, nil}) }
 	for _, src := range []string{"A + A", "B + B", "A + A + len(B + B)", `Up("k") + B`, "Twice(2) + A", "C[0] + A"} {
 		src := src
 		add("struct, two operators with two candidates", src, func() []expr.Option {
@@ -72,6 +80,14 @@ func seamConfigs() []seamCfg {
 		src := src
 		add("map environment with four members", src, func() []expr.Option { return []expr.Option{expr.Env(mapEnv), expr.AllowUndefinedVariables()} })
 		add("map environment with two members", src, func() []expr.Option { return []expr.Option{expr.Env(map2), expr.AllowUndefinedVariables()} })
+	}
+	// run-time map iteration: maps whose keys are equal as numbers but differ in type, string-keyed maps
+	for _, src := range []string{"MK[1]", "MK[I]", "MK[1.0]", "1 in MK", "I in MK", "len(MK)", `MS["a"] + MS["b"]`, `"a" in MS`, "len(MS)", "MK[2]", "[MK[1], MK[I], len(MS)]"} {
+		src := src
+		cfgs = append(cfgs, seamCfg{"run on interface-keyed and string-keyed maps", src, func() []expr.Option { return []expr.Option{expr.Env(seamRunEnv{})} },
+			func() interface{} {
+				return seamRunEnv{MK: map[interface{}]string{int64(1): "int64", uint8(1): "uint8", float32(1): "float32", "1": "string", 2: "two"}, MS: map[string]int{"a": 1, "b": 2, "c": 3}, I: 1}
+			}})
 	}
 	// struct environments with two embedded structs (promoted fields are merged through a map)
 	n := 0
@@ -105,7 +121,12 @@ func seamCompile(c seamCfg) (key string) {
 		}
 		return "error"
 	}
-	return progKey(p)
+	key = progKey(p)
+	if c.env != nil {
+		out, rerr := vm.Run(p, c.env())
+		key += fmt.Sprintf(" |run: %s %v", henv.Norm(out), rerr != nil)
+	}
+	return key
 }
 
 func permutations(n int) [][]int {
@@ -208,7 +229,7 @@ func seamChild(tier string) {
 				for _, d := range ds {
 					w = append(w, fmt.Sprintf("%s visit %d order %v", d.v.Site, d.v.Visit, d.perm))
 				}
-				fmt.Printf("SEAM-VIOLATION\t%s\tprogram-depends-on-map-order\t%s with %s\tbase %s ; permuted %s\n", c.name, c.src, strings.Join(w, " + "), trunc(base), trunc(got))
+				fmt.Printf("SEAM-VIOLATION\t%s\tprogram-or-result-depends-on-map-order\t%s with %s\tbase %s ; permuted %s\n", c.name, c.src, strings.Join(w, " + "), trunc(base), trunc(got))
 			}
 		}
 		for _, d := range devs {
